@@ -163,7 +163,10 @@ static Out differential(const Parser& p, const std::string& in, unsigned optbits
     parse_options opts; opts.set_skip_whitespace(!(optbits & 1)).set_skip_newline(!(optbits & 2)).set_verbose((optbits & 4) != 0);
     std::unique_ptr<char[]> exact(new char[in.size() ? in.size() : 1]); std::memcpy(exact.get(), in.data(), in.size());
     Out a = run_one(p, string_view_buffer(std::string_view(exact.get(), in.size())), opts);
-    Out b = run_one(p, string_buffer(std::string(in)), opts);
+    // a string_buffer is a value: the parse runs on a copy of a moved buffer whose originals have been overwritten and destroyed
+    auto* sb0 = new string_buffer(std::string(in)); auto* sb1 = new string_buffer(std::move(*sb0)); string_buffer sb2(*sb1);
+    *sb0 = string_buffer("#overwritten#"); *sb1 = string_buffer("#overwritten-too#-----------------------------"); delete sb0; delete sb1;
+    Out b = run_one(p, sb2, opts);
     vb::HeapCBuffer hb(in);
     Out c = run_one(p, hb, opts);
     vb::CheckedBuffer cb(in);
@@ -258,7 +261,7 @@ static void match_one(const E& e, const std::string& in, bool verbose, size_t wh
     try
     {
         a = e.match(mo, string_view_buffer(std::string_view(exact.get(), in.size())), o1);
-        b = e.match(mo, string_buffer(std::string(in)), o2);
+        { auto* sb0 = new string_buffer(std::string(in)); auto* sb1 = new string_buffer(std::move(*sb0)); string_buffer sb2(*sb1); *sb0 = string_buffer("#overwritten#"); delete sb0; delete sb1; b = e.match(mo, sb2, o2); }
         vb::CheckedBuffer cb(in);
         c = e.match(mo, cb, o3);
     }
